@@ -113,8 +113,10 @@ def wrapScalar (env : Env) (t : TagKind) (kw : CtorKw) (v : RVal) : Except Err N
   | .plain =>
     match v with
     | .lit .null =>
-      -- `parse_scalar` returns an existing ConfigNone node; only `_kwargs_to_inherit` reach it
-      .ok (.leaf { bareFlags env with prio := kw.prio } (.scalar .null))
+      -- `parse_scalar` returns an existing ConfigNone node; only `_kwargs_to_inherit` reach it, and (since the
+      -- repair "an !unsafe mark on a value that is already a node was dropped") an explicit `safe=False`
+      .ok (.leaf { bareFlags env with prio := kw.prio, safe := if kw.safe = some false then some false else none }
+        (.scalar .null))
     | _ => .ok (.leaf (mkFlags env kw) (.scalar v.toScalar))
   | .xref => match v with
     | .text s => .ok (.leaf (mkFlags env kw) (.xref s))
